@@ -14,7 +14,7 @@ PLANS = {
  "C03": P([("refuse", 60), ("torn", 40), ("boundary", 6)], [("refuse", 1500), ("torn", 600), ("boundary", 60)]),
  "C04": P([("reopen", 50), ("reopen_marker", 20), ("roundtrip", 20), ("bigline", 6)],
           [("reopen", 1200), ("reopen_marker", 500), ("roundtrip", 400), ("bigline", 20)], op_timeout_ms=20000),
- "C05": P([("torn", 90), ("index_states", 10)], [("torn", 3000), ("index_states", 300)]),
+ "C05": P([("torn", 90), ("index_states", 10), ("boundary", 19)], [("torn", 3000), ("index_states", 300), ("boundary", 190)]),
  "C06": P([("index_states", 50), ("roundtrip", 15), ("boundary", 38), ("sparse_boundary", 3), ("torn", 20)],
           [("index_states", 1500), ("roundtrip", 300), ("boundary", 120), ("sparse_boundary", 30)]),
  "C07": P([("format", 40), ("roundtrip", 25), ("assets", 2), ("reopen", 20), ("boundary_reader", 12)], [("format", 1200), ("roundtrip", 600), ("assets", 2), ("reopen", 300), ("boundary_reader", 100)]),
